@@ -130,6 +130,9 @@ theorem alookup_aerase {β : Type} (k k' : Nat) (l : List (Nat × β)) :
 
 namespace PeerState
 
+theorem canDial_ok' {s : PeerState} (h : s.canDial = .ok) : s = .disconnected none := by
+  unfold canDial at h; split at h <;> simp_all
+
 theorem slots_length_le (s : PeerState) : s.slots.length ≤ 2 := by
   unfold slots; split <;> simp
 
